@@ -783,6 +783,7 @@ func main() {
 	runAll(uniq)
 	if *hx.Replay == "" && *onlyFn == "" && !*noTable {
 		tableDifferential(r)
+		otherMountsStage()
 	}
 	for f := range modelled {
 		rep.Count("modelled-function:" + f)
